@@ -352,10 +352,11 @@ class ExprWorld:
         g["cast"] = lambda t, v: v
         g["TypeError"] = lambda *a: Tag("TypeError")
         g["ValueError"] = lambda *a: Tag("ValueError")
-        g["flatten_iterator"] = self._flatten
+        # flatten_iterator is the repository's own generator function (evaluated, not trusted by name): a one-shot argument is
+        # consumed by it, and its result can be walked once
         for mod in (self.expr_mod, self.cons_mod):
             for q, fn in mod.funcs.items():
-                if "." not in q and q != "flatten_iterator":
+                if "." not in q:
                     g.setdefault(q, fde.FunctionValue(fn, self.ev, g))
             for st in mod.tree.body:
                 if isinstance(st, ast.Assign):
